@@ -9,7 +9,8 @@ use serde_json::{Value as J, json};
 const RULE: &str = "generated programs whose functions are pure (assign no global, contain no sequences, RANDOM or \
 read counts; value-returning, text-printing, multi-line, nested calls) under a generated history (continues \
 line by line, choices, flow switches, saves/loads), with evaluate_function injected at generated boundaries \
-(mid-paragraph, at choice points, at the end, in named flows), each injection done twice. Oracles: \
+(mid-paragraph, at choice points, at the end, in named flows), each injection done twice; arguments are ints, and \
+for the idiom functions written for any type also bools, floats, strings and values read back from a global (lists). Oracles: \
 (1) the polled view (pending text, tags, choices, globals, visit counts outside functions) is identical \
 immediately before and after the call; (2) the second call returns the same value and text as the first; \
 (3) the whole history with injections yields the same transcript, notifications, external calls and final \
@@ -273,7 +274,29 @@ pub fn run(env: &Env) -> i32 {
             for _ in 0..ninj {
                 let at = t.pick(ops.len() + 1);
                 let f = &fns[t.pick(fns.len())];
-                let args: Vec<Arg> = (0..f.1).map(|_| Arg::I(t.range(0, 9))).collect();
+                // functions written for any type get any type a host can pass: int, bool, float,
+                // string, and a value read back from a global (list values come that way)
+                let args: Vec<Arg> = (0..f.1)
+                    .map(|_| {
+                        if f.0.starts_with("pure_any") {
+                            match t.pick(6) {
+                                0 => Arg::I(t.range(-3, 9)),
+                                1 => Arg::B(t.chance(1, 2)),
+                                2 => Arg::F([0.5, -1.25, 2.0][t.pick(3)]),
+                                3 => Arg::S(["x", "", "two words", "3"][t.pick(4)].to_string()),
+                                _ => {
+                                    if b.meta.globals.is_empty() {
+                                        Arg::I(0)
+                                    } else {
+                                        Arg::G(b.meta.globals[t.pick(b.meta.globals.len())].clone())
+                                    }
+                                }
+                            }
+                        } else {
+                            Arg::I(t.range(0, 9))
+                        }
+                    })
+                    .collect();
                 let call = HostOp::Eval { func: f.0.clone(), args };
                 inject.push(json!({"at": at, "call": call.to_json()}));
             }
